@@ -222,6 +222,34 @@ theorem frechetLeft_tight (op : Rat → Rat → Rat)
     ⟨⟨j, by omega⟩, ⟨i.val - j, by omega⟩, by simp; omega, by simp [hatt]⟩
   exact key
 
+/-- **Frechet right bound is best possible on the model**: the dual extremal coupling of the
+bounding selections `A`, `B` makes the `i`-th smallest outcome equal to `right[i]`. -/
+theorem frechetRight_tight (op : Rat → Rat → Rat)
+    (hop : ∀ p p' q q', p ≤ p' → q ≤ q' → op p q ≤ op p' q')
+    (A B : List Rat) (n : Nat) (hA : A.length = n) (hB : B.length = n)
+    (sA : A.Pairwise (· ≤ ·)) (sB : B.Pairwise (· ≤ ·)) (i : Fin n) (v : Rat)
+    (hv : (frechetRightRaw op A B)[i.val]? = some v) :
+    ∃ σ : Equiv.Perm (Fin n),
+      (univ.filter (fun m : Fin n => v < op (A[m.val]'(by omega)) (B[(σ m).val]'(by omega)))).card ≤ n - 1 - i.val ∧
+      n - i.val ≤ (univ.filter (fun m : Fin n => v ≤ op (A[m.val]'(by omega)) (B[(σ m).val]'(by omega)))).card := by
+  obtain ⟨v', hv', hlb, t, ht, hatt⟩ := frechetRightRaw_spec op A B n hA hB i.val i.isLt
+  rw [hv] at hv'
+  have hvv : v = v' := Option.some.inj hv'
+  subst hvv
+  have key := Frechet.frechet_right_tight op hop (fun m : Fin n => A[m.val]'(by omega))
+    (fun m : Fin n => B[m.val]'(by omega)) (sorted_getElem_mono A sA n hA)
+    (sorted_getElem_mono B sB n hB) i v
+    (by
+      intro j' k' hjk
+      have hj' := j'.isLt; have hk' := k'.isLt
+      have h1 := hlb (j'.val - i.val) (by omega)
+      have e1 : i.val + (j'.val - i.val) = j'.val := by omega
+      have e2 : n - 1 - (j'.val - i.val) = k'.val := by omega
+      simp only [e1, e2] at h1
+      exact h1)
+    ⟨⟨i.val + t, by omega⟩, ⟨n - 1 - t, by omega⟩, by simp; omega, by simp [hatt]⟩
+  exact key
+
 /-! ### the two monotone operations the library feeds to `frechet_op` -/
 
 theorem add_mono2 : ∀ p p' q q' : Rat, p ≤ p' → q ≤ q' → p + q ≤ p' + q' :=
